@@ -42,6 +42,12 @@ structure WInv (s : St) : Prop where
   /-- a current job on loaded pieces: no verifier, and its piece is not yet held -/
   wc : ∀ w, s.writing = some w → w.gen = s.gen → s.loaded = true →
     s.verifier = false ∧ bitOf s.bf w.piece = false
+  /-- the `Writing` flags of loaded pieces: one per piece -/
+  wl : s.loaded = true → s.wflag.length = s.n
+  /-- a current job on loaded pieces — in particular one whose storage calls have returned and whose result is
+  held (`written`) — has its piece's `Writing` flag set, and the piece is not done -/
+  wd : ∀ w, s.writing = some w → w.gen = s.gen → s.loaded = true →
+    s.wflag.getD w.piece false = true ∧ s.done.getD w.piece false = false
   /-- bits ⊆ `done` while loaded and not verifying -/
   bd : s.loaded = true → s.verifier = false → ∀ b, s.bf = some b →
     b.length ≤ s.done.length ∧ ∀ i, b.getD i false = true → s.done.getD i false = true
@@ -126,7 +132,7 @@ theorem WFrame.of_lists {s s' : St} (h1 : s'.cfg = s.cfg) (h2 : s'.wflag = s.wfl
   ⟨h1, h2, h3, h4, h5, h6, h7, h8, h9, h10, fun h => Or.inl (h11 ▸ h), h12, h13, h14⟩
 
 theorem WInv.frame {s s' : St} (h : WInv s) (f : WFrame s s') : WInv s' := by
-  refine ⟨by rw [f.cfg]; exact h.cfgOK, ?_, ?_, ?_, ?_, ?_, ?_, ?_, ?_, ?_, ?_⟩
+  refine ⟨by rw [f.cfg]; exact h.cfgOK, ?_, ?_, ?_, ?_, ?_, ?_, ?_, ?_, ?_, ?_, ?_, ?_⟩
   · intro p' hp' msg hm
     rcases f.q p' hp' msg hm with hn | ⟨p, hp, hm'⟩
     · exact hn
@@ -135,6 +141,8 @@ theorem WInv.frame {s s' : St} (h : WInv s) (f : WFrame s s') : WInv s' := by
   · rw [f.writing, f.cfg]; exact h.wb
   · rw [f.writing, f.gen]; exact h.wg
   · rw [f.writing, f.gen, f.loaded, f.verifier, f.bf]; exact h.wc
+  · rw [f.loaded, f.wflag]; unfold St.n; rw [f.cfg]; exact h.wl
+  · rw [f.writing, f.gen, f.loaded, f.wflag, f.done]; exact h.wd
   · rw [f.loaded, f.verifier, f.bf, f.done]; exact h.bd
   · intro d' hd'
     obtain ⟨d, hd, e⟩ := f.dls d' hd'
@@ -239,11 +247,13 @@ theorem mapDl_wframe (s : St) (g : Dl → Dl) (hg : ∀ d, (g d).piece = d.piece
 
 theorem InitLike.winv {s : St} (h : InitLike s) (hc : s.cfg.blocksHaveData = true) (hw : s.writing = none) :
     WInv s := by
-  refine ⟨hc, ?_, ?_, ?_, ?_, ?_, ?_, ?_, ?_, ?_, ?_⟩
+  refine ⟨hc, ?_, ?_, ?_, ?_, ?_, ?_, ?_, ?_, ?_, ?_, ?_, ?_⟩
   · intro p hp; rw [h.peers] at hp; cases hp
   · intro hl; rw [h.loaded] at hl; cases hl
   · intro w hw'; rw [hw] at hw'; cases hw'
   · intro w hw'; rw [hw] at hw'; cases hw'
+  · intro w hw'; rw [hw] at hw'; cases hw'
+  · intro hl; rw [h.loaded] at hl; cases hl
   · intro w hw'; rw [hw] at hw'; cases hw'
   · intro hl; rw [h.loaded] at hl; cases hl
   · intro d hd; rw [h.dls] at hd; cases hd
